@@ -42,12 +42,13 @@ import os
 from harness.translate import measures as MS
 from harness.translate import translate as T
 
-VERSION = "x_pairwise.py/4"
+VERSION = "x_pairwise.py/8"
 GEN_FILES = ("PairwiseSrc.v",)
 
 M_MATRIX = MS.M_MATRIX
 M_SUBTOTALS = MS.M_SUBTOTALS
 M_LEGACY = "cr/cube/measures/pairwise_significance.py"
+M_CUBEMEASURE = T.MATRIX
 M_CUBEPART = MS.M_CUBEPART
 
 Unavailable = T.Unavailable
@@ -80,7 +81,7 @@ def p_pcond(c):
         return "CIxNeg %s" % p_ixe(c[1])
     if k == "CIxEq":
         return "CIxEq %s %s" % (p_ixe(c[1]), p_ixe(c[2]))
-    if k in ("CSizeZero", "CSizePos"):
+    if k in ("CSizeZero", "CSizePos", "CNdimLt2"):
         return "%s (%s)" % (k, p_pexp(c[1]))
     if k == "CPFlag":
         return "CPFlag %s" % q(c[1])
@@ -127,11 +128,38 @@ def p_pexp(t):
         return "PNanSub (%s) %d %d" % (p_pexp(t[1]), t[2], t[3])
     if k == "PCdf":
         return "PCdf (%s) (%s)" % (p_pexp(t[1]), p_pexp(t[2]))
+    if k == "PNCdf":
+        return "PNCdf (%s)" % p_pexp(t[1])
+    if k == "PIdx1":
+        return "PIdx1 (%s) %s" % (p_pexp(t[1]), p_ixe(t[2]))
+    if k == "PScal":
+        return "PScal %s" % q(t[1])
+    if k == "PMaskRowsSum":
+        return "PMaskRowsSum (%s) (%s)" % (p_pexp(t[1]), p_pexp(t[2]))
     if k == "PTab2":
         return "PTab2 %s %s (%s)" % (q(t[1]), q(t[2]), p_pexp(t[3]))
+    if k == "PTabR":
+        return "PTabR (%s) %s %s (%s)" % (p_pexp(t[1]), q(t[2]), q(t[3]), p_pexp(t[4]))
+    if k == "PIdx3S":
+        return "PIdx3S %s %s %s %s %s" % (q(t[1]), q(t[2]), p_ixe(t[3]), p_ixe(t[4]), p_ixe(t[5]))
+    if k == "PZeroRows":
+        return "PZeroRows (%s)" % p_pexp(t[1])
     if k == "PIf":
         return "PIf (%s) (%s) (%s)" % (p_pcond(t[1]), p_pexp(t[2]), p_pexp(t[3]))
     _un("construct outside pexp (%s)" % k)
+
+
+def p_bvexp(b):
+    k = b[0]
+    if k == "BVLt":
+        return "BVLt (%s) (%s)" % (p_pexp(b[1]), p_pexp(b[2]))
+    if k == "BVNeg":
+        return "BVNeg (%s)" % p_pexp(b[1])
+    if k == "BVAnd":
+        return "BVAnd (%s) (%s)" % (p_bvexp(b[1]), p_bvexp(b[2]))
+    if k == "BVIf":
+        return "BVIf (%s) (%s) (%s)" % (p_pcond(b[1]), p_bvexp(b[2]), p_bvexp(b[3]))
+    _un("construct outside bvexp (%s)" % k)
 
 
 def p_bmexp(b):
@@ -173,7 +201,7 @@ class _PW(MS._M):
             want = {"np": ("numpy", None), "lazyproperty": ("cr.cube.util", "lazyproperty"),
                     "t": ("scipy.stats", "t")}
         else:
-            want = {"t": ("scipy.stats", "t"),
+            want = {"t": ("scipy.stats", "t"), "norm": ("scipy.stats", "norm"),
                     "OverlapSubtotals": ("cr.cube.matrix.subtotals", "OverlapSubtotals")}
         for nm, v in want.items():
             if self._pw_problem is None and imp.get(nm) != v:
@@ -244,7 +272,12 @@ class _PW(MS._M):
         # trailing defaults are allowed here (alpha=0.05, only_larger=True): they are opaque
         if a.vararg or a.kwarg or a.kwonlyargs or a.posonlyargs or init.decorator_list or len(params) < 2:
             _un("%s.__init__: signature not read" % cname, init)
-        vals = [("slice",), ("ix", ("IxParam", "sel"))] + [("opaque", p) for p in params[2:]]
+        vals = [("slice",), ("ix", ("IxParam", "sel"))]
+        if len(params) >= 3:
+            vals.append(("arr", ("PScal", "alpha")))
+        if len(params) >= 4:
+            vals.append(("flag", "only_larger"))
+        vals += [("opaque", p) for p in params[4:]]
         # measures._Mod.init_fields refuses defaults: read the plain field assignments here
         fields = {}
         env = dict(zip(params, vals))
@@ -297,15 +330,94 @@ class _PW(MS._M):
             for n, x in zip(names, v[1]):
                 env[n] = x
             return self.body(rest, dict(ctx, env=env), where)
-        if isinstance(st, ast.Assign) and len(st.targets) == 1 and T._is_name(st.targets[0], "t"):
-            _un("the name t is rebound", st)
+        r = self.loop_tab(stmts, ctx)
+        if r is not None:
+            return r
+        if isinstance(st, ast.Assign) and len(st.targets) == 1 and (
+            T._is_name(st.targets[0], "t") or T._is_name(st.targets[0], "norm")
+        ):
+            _un("the name t / norm is rebound", st)
         return MS._M.body(self, stmts, ctx, where)
+
+    def loop_tab(self, stmts, ctx):
+        """M = []; for i in range(A.shape[0]): R = []; for j in range(X.shape[1]): <x = e>*; R.append(E);
+           M.append(R); return np.array(M)      ->  PTabR A X E   (None: not this shape)"""
+        if len(stmts) != 3:
+            return None
+        s0, s1, s2 = stmts
+
+        def empty_list(st):
+            if (isinstance(st, ast.Assign) and len(st.targets) == 1 and isinstance(st.targets[0], ast.Name)
+                    and isinstance(st.value, ast.List) and not st.value.elts):
+                return st.targets[0].id
+            return None
+
+        def for_range(st):
+            if (isinstance(st, ast.For) and not st.orelse and isinstance(st.target, ast.Name)
+                    and isinstance(st.iter, ast.Call) and T._is_name(st.iter.func, "range")
+                    and "range" not in ctx["env"] and len(st.iter.args) == 1 and not st.iter.keywords):
+                return st.target.id, st.iter.args[0]
+            return None
+
+        def append(st, lst):
+            if (isinstance(st, ast.Expr) and isinstance(st.value, ast.Call) and T._is_attr(st.value.func, lst, "append")
+                    and len(st.value.args) == 1 and not st.value.keywords):
+                return st.value.args[0]
+            return None
+
+        m = empty_list(s0)
+        fo = for_range(s1)
+        if m is None or fo is None:
+            return None
+        if not (isinstance(s2, ast.Return) and isinstance(s2.value, ast.Call) and T._is_attr(s2.value.func, "np", "array")
+                and "np" not in ctx["env"] and len(s2.value.args) == 1 and not s2.value.keywords
+                and T._is_name(s2.value.args[0], m)):
+            return None
+        ob = list(s1.body)
+        if len(ob) != 3:
+            _un("loop body outside the sub-language", s1)
+        r = empty_list(ob[0])
+        fi = for_range(ob[1])
+        ap = append(ob[2], m)
+        if r is None or fi is None or not T._is_name(ap, r):
+            _un("loop body outside the sub-language", s1)
+        (iname, ibound), (jname, jbound) = fo, fi
+        names = (m, r, iname, jname)
+        if len(set(names)) != 4 or any(n in ("self", "np", "DT", "t", "norm", HELPER) or n in ctx["env"] for n in names):
+            _un("loop variables not read", s1)
+        bi = self.expr(ibound, ctx)
+        bj = self.expr(jbound, ctx)
+        if not (bi[0] == "shapeix" and bi[2] == 0 and bj[0] == "shapeix" and bj[2] == 1 and bj[1][0] == "MCube"):
+            _un("loop bounds are not <2-D array>.shape[0] / <cube-measure array>.shape[1]", s1)
+        env = dict(ctx["env"])
+        env[iname] = ("ix", ("IxLoop", 0))
+        env[jname] = ("ix", ("IxLoop", 1))
+        ib = list(ob[1].body)
+        if not ib:
+            _un("empty loop body", ob[1])
+        for st in ib[:-1]:
+            if not (isinstance(st, ast.Assign) and len(st.targets) == 1 and isinstance(st.targets[0], ast.Name)
+                    and st.targets[0].id not in names + ("self", "np", "DT", "t", "norm", HELPER)):
+                _un("statement in the inner loop not read", st)
+            env[st.targets[0].id] = self.expr(st.value, dict(ctx, env=env))
+        e = append(ib[-1], r)
+        if e is None:
+            _un("the inner loop does not end in <row>.append(<value>)", ib[-1])
+        # the loop lists must not be used anywhere else
+        for st in ib:
+            for n in ast.walk(st):
+                if isinstance(n, ast.Name) and n.id in (m,) or (isinstance(n, ast.Name) and n.id == r and n is not ib[-1].value.func.value):
+                    _un("the lists built by the loops are used inside them", st)
+        body = self.arr(self.expr(e, dict(ctx, env=env)), e)
+        return ("arr", ("PTabR", bi[1], bj[1][1], bj[1][2], body))
 
     def mif(self, c, a, b, node):
         if a[0] == "tuple" and b[0] == "tuple" and len(a[1]) == len(b[1]):
             return ("tuple", [self.mif(c, x, y, node) for x, y in zip(a[1], b[1])])
         if a[0] == "blocks" and b[0] == "blocks":
             return ("blocks", [[("PIf", c, a[1][i][j], b[1][i][j]) for j in (0, 1)] for i in (0, 1)])
+        if a[0] in ("bv", "where1") and b[0] == a[0]:
+            return (a[0], ("BVIf", c, a[1], b[1]))
         return ("arr", ("PIf", c, self.arr(a, node), self.arr(b, node)))
 
     def ix(self, v, node):
@@ -323,6 +435,33 @@ class _PW(MS._M):
             r = self.subscript(e, ctx)
             if r is not None:
                 return r
+        # <array> < <array or scalar>: a boolean array (only as far as bvexp goes)
+        if isinstance(e, ast.Compare) and len(e.ops) == 1 and isinstance(e.ops[0], ast.Lt):
+            a = self.expr(e.left, ctx)
+            if a[0] in ("arr", "cubeattr"):
+                if T._nat(e.comparators[0]) == 0:
+                    return ("bv", ("BVNeg", self.arr(a, e.left)))
+                b = self.expr(e.comparators[0], ctx)
+                return ("bv", ("BVLt", self.arr(a, e.left), self.arr(b, e.comparators[0])))
+        # ~np.isnan(x): a row mask
+        if (
+            isinstance(e, ast.UnaryOp) and isinstance(e.op, ast.Invert) and isinstance(e.operand, ast.Call)
+            and T._is_attr(e.operand.func, "np", "isnan") and "np" not in ctx["env"]
+            and len(e.operand.args) == 1 and not e.operand.keywords
+        ):
+            return ("mask", self.arr(self.expr(e.operand.args[0], ctx), e.operand))
+        # tuple(np.where(<boolean vector>)[0])
+        if (
+            isinstance(e, ast.Call) and T._is_name(e.func, "tuple") and "tuple" not in ctx["env"]
+            and len(e.args) == 1 and not e.keywords and isinstance(e.args[0], ast.Subscript)
+            and T._nat(e.args[0].slice) == 0 and isinstance(e.args[0].value, ast.Call)
+            and T._is_attr(e.args[0].value.func, "np", "where") and "np" not in ctx["env"]
+            and len(e.args[0].value.args) == 1 and not e.args[0].value.keywords
+        ):
+            b = self.expr(e.args[0].value.args[0], ctx)
+            if b[0] != "bv":
+                _un("np.where of something else than a boolean vector of the sub-language", e)
+            return ("where1", b[1])
         if isinstance(e, ast.Call) and isinstance(e.func, ast.Name):
             if e.func.id == "abs" and "abs" not in ctx["env"]:
                 if len(e.args) != 1 or e.keywords or isinstance(e.args[0], ast.Starred):
@@ -350,9 +489,40 @@ class _PW(MS._M):
                 if base[0] != "arr":
                     _un("[i, j] of something else than a 2-D array expression", e)
                 return ("arr", ("PIdx2", base[1], ks[0], ks[1]))
+            if base[0] == "cube3rows":
+                return ("arr", ("PIdx3S", base[1], base[2], ks[0], ks[1], ks[2]))
             if base[0] != "cubeattr":
                 _un("[i, j, k] of something else than a cube-measure array", e)
             return ("arr", ("PIdx3", base[1], base[2], ks[0], ks[1], ks[2]))
+        # M[mask, :]
+        if (
+            isinstance(sl, ast.Tuple) and len(sl.elts) == 2 and _full_slice(sl.elts[1])
+            and isinstance(sl.elts[0], ast.Name) and ctx["env"].get(sl.elts[0].id, ("",))[0] == "mask"
+        ):
+            base = self.expr(e.value, ctx)
+            return ("maskrows", self.arr(base, e), ctx["env"][sl.elts[0].id][1])
+        # x[:, k][:, None]  ==  x[:, [k]]
+        if (
+            isinstance(sl, ast.Tuple) and len(sl.elts) == 2 and _full_slice(sl.elts[0])
+            and isinstance(sl.elts[1], ast.Constant) and sl.elts[1].value is None
+            and isinstance(e.value, ast.Subscript) and isinstance(e.value.slice, ast.Tuple)
+            and len(e.value.slice.elts) == 2 and _full_slice(e.value.slice.elts[0])
+            and not isinstance(e.value.slice.elts[1], (ast.Slice, ast.List, ast.Starred, ast.Constant))
+        ):
+            base = self.expr(e.value.value, ctx)
+            k = self.ix(self.expr(e.value.slice.elts[1], ctx), e)
+            return ("arr", ("PColSel", self.arr(base, e), k))
+        # x[k], x 1-D, k an integer parameter (self.<field> or a bound name)
+        if isinstance(sl, (ast.Attribute, ast.Name)) and not (
+            isinstance(sl, ast.Name) and ctx["env"].get(sl.id, ("",))[0] == "num"
+        ):
+            try:
+                kv = self.expr(sl, ctx)
+            except Unavailable:
+                kv = None
+            if kv is not None and kv[0] == "ix":
+                base = self.expr(e.value, ctx)
+                return ("arr", ("PIdx1", self.arr(base, e), kv[1]))
         # <blocks>[k] / <row of blocks>[k], k a name bound to the literal 0 / 1
         if isinstance(sl, ast.Name) and sl.id in ctx["env"]:
             v = ctx["env"][sl.id]
@@ -364,6 +534,18 @@ class _PW(MS._M):
                 if base[0] == "brow":
                     return ("arr", base[1][k])
                 _un("subscript outside the sub-language", e)
+        # OverlapSubtotals.blocks(..)[1][0]
+        if T._nat(sl) in (0, 1) and isinstance(e.value, (ast.Call, ast.Subscript)):
+            try:
+                base = self.expr(e.value, ctx)
+            except Unavailable:
+                base = ("",)
+            if base[0] == "ovblocks":
+                return ("ovbrow", base[1], base[2], T._nat(sl))
+            if base[0] == "ovbrow":
+                if (base[3], T._nat(sl)) != (1, 0):
+                    _un("only the inserted-rows block [1][0] of OverlapSubtotals.blocks is read", e)
+                return ("cube3rows", base[1], base[2])
         # <x>.shape[k]
         k = T._nat(sl)
         if k in (0, 1) and isinstance(e.value, ast.Attribute) and e.value.attr == "shape":
@@ -392,6 +574,8 @@ class _PW(MS._M):
             return ("arr", ("PSlice", e.attr))
         if k in ("arr", "cubeattr") and e.attr == "size":
             return ("size", self.arr(base, e))
+        if k in ("arr", "cubeattr") and e.attr == "ndim":
+            return ("ndim", self.arr(base, e))
         if k == "measure" and e.attr == "is_defined":
             return ("flag", "%s.is_defined" % base[1])
         if k == "helper":
@@ -409,6 +593,11 @@ class _PW(MS._M):
             x = self.arr(self.expr(e.args[0], ctx), e.args[0])
             d = self.arr(self.expr(e.keywords[0].value, ctx), e)
             return ("arr", ("PCdf", x, d))
+        # norm.cdf(x)
+        if T._is_attr(f, "norm", "cdf") and "norm" not in ctx["env"] and not self.legacy:
+            if len(e.args) != 1 or e.keywords:
+                _un("norm.cdf call other than norm.cdf(x)", e)
+            return ("arr", ("PNCdf", self.arr(self.expr(e.args[0], ctx), e.args[0])))
         # the helper: _Helper(cp, selected, valid, row, a, b)
         if isinstance(f, ast.Name) and f.id == HELPER and HELPER not in ctx["env"] and not self.legacy:
             if e.keywords or len(e.args) != len(HELPER_ARGS):
@@ -418,12 +607,22 @@ class _PW(MS._M):
                 v = self.expr(a, ctx)
                 if kind == "arr2" and v[0] != "arr":
                     _un("helper argument is not a 2-D array expression", a)
-                if kind == "arr3" and v[0] != "cubeattr":
+                if kind == "arr3" and v[0] not in ("cubeattr", "cube3rows"):
                     _un("helper argument is not a cube-measure array", a)
                 if kind == "ix" and v[0] != "ix":
                     _un("helper argument is not an integer parameter / loop index", a)
                 vals.append(v)
             return ("helper", self.helper_fields(vals, e))
+        # OverlapSubtotals.blocks(<cube-measure array>, self._dimensions, diff_cols_nan=True)
+        if T._is_attr(f, "OverlapSubtotals", "blocks") and "OverlapSubtotals" not in ctx["env"] and not self.legacy:
+            kw = dict((k.arg, k.value) for k in e.keywords)
+            if (len(e.args) != 2 or set(kw) != {"diff_cols_nan"}
+                    or not (isinstance(kw["diff_cols_nan"], ast.Constant) and kw["diff_cols_nan"].value is True)):
+                _un("OverlapSubtotals.blocks call not read", e)
+            x = self.expr(e.args[0], ctx)
+            if x[0] != "cubeattr" or self.expr(e.args[1], ctx) != ("dims",):
+                _un("OverlapSubtotals.blocks operands not read", e)
+            return ("ovblocks", x[1], x[2])
         # self._second_order_measures.<method>(k)
         if isinstance(f, ast.Attribute) and not T._is_name(f.value, "self") and not T._is_name(f.value, "np") \
                 and not isinstance(f.value, ast.Name):
@@ -453,8 +652,32 @@ class _PW(MS._M):
             if shp[0] != "shape":
                 _un("np.broadcast_to other than (a, <x>.shape)", e)
             return ("arr", ("PBroadcastLike", a, shp[1]))
+        if name == "zeros" and len(args) == 1 and not kw and isinstance(args[0], ast.Tuple) and len(args[0].elts) == 2:
+            if T._nat(args[0].elts[0]) == 0:
+                b = self.expr(args[0].elts[1], ctx)
+                if b[0] == "shapeix" and b[2] == 1:
+                    return ("arr", ("PZeroRows", b[1]))
+            _un("np.zeros other than ((0, <x>.shape[1]))", e)
         if name == "array" and len(args) == 1 and not kw and isinstance(args[0], ast.ListComp):
             return self.tab2(args[0], ctx)
+        if name == "array" and len(args) == 1 and not kw:
+            v = self.expr(args[0], ctx)
+            if v[0] == "arr":          # np.array(<array>): the same values (dtype is not modelled)
+                return v
+            _un("np.array of something else than an array expression", e)
+        if name == "divide" and len(args) == 2 and not kw:
+            return ("arr", ("MDiv", self.arr(self.expr(args[0], ctx), args[0]),
+                            self.arr(self.expr(args[1], ctx), args[1])))
+        if name == "sum" and len(args) == 1 and set(kw) == {"axis"} and T._nat(kw["axis"]) == 0:
+            v = self.expr(args[0], ctx)
+            if v[0] == "maskrows":
+                return ("arr", ("PMaskRowsSum", v[1], v[2]))
+            _un("np.sum(.., axis=0) of something else than <m>[~np.isnan(<v>), :]", e)
+        if name == "logical_and" and len(args) == 2 and not kw:
+            a, b = self.expr(args[0], ctx), self.expr(args[1], ctx)
+            if a[0] == "bv" and b[0] == "bv":
+                return ("bv", ("BVAnd", a[1], b[1]))
+            _un("np.logical_and of something else than boolean vectors of the sub-language", e)
         return MS._M.np_call(self, name, e, kw, ctx)
 
     def tab2(self, lc, ctx):
@@ -501,6 +724,20 @@ class _PW(MS._M):
                     c = ("CPFlag", "%s is not None" % a[1][1])
                     return c if isinstance(op, ast.IsNot) else ("CPNot", c)
                 _un("`is None` test of something else than a slice attribute", t)
+            # np.prod(<x>.shape) == 0: <x>.size == 0
+            if (isinstance(op, ast.Eq) and T._nat(r) == 0 and isinstance(t.left, ast.Call)
+                    and T._is_attr(t.left.func, "np", "prod") and "np" not in ctx["env"]
+                    and len(t.left.args) == 1 and not t.left.keywords):
+                b = self.expr(t.left.args[0], ctx)
+                if b[0] == "shape":
+                    return ("CSizeZero", b[1])
+                _un("np.prod of something else than <x>.shape", t)
+            # 0 in <x>.shape: some axis is empty, i.e. <x>.size == 0
+            if isinstance(op, ast.In) and T._nat(t.left) == 0:
+                b = self.expr(r, ctx)
+                if b[0] == "shape":
+                    return ("CSizeZero", b[1])
+                _un("`0 in` something else than <x>.shape", t)
             a = self.expr(t.left, ctx)
             if a[0] == "ix":
                 if isinstance(op, ast.Lt) and T._nat(r) == 0:
@@ -509,6 +746,8 @@ class _PW(MS._M):
                     b = self.expr(r, ctx)
                     if b[0] == "ix":
                         return ("CIxEq", a[1], b[1])
+            if a[0] == "ndim" and isinstance(op, ast.Lt) and T._nat(r) == 2:
+                return ("CNdimLt2", a[1])
             if a[0] == "size" and T._nat(r) == 0:
                 if isinstance(op, ast.Eq):
                     return ("CSizeZero", a[1])
@@ -1174,6 +1413,307 @@ class _Ctl(object):
         return self.wbody(cname, T._strip_doc(fn.body), {}, fn)
 
 # ------------------------------------------------------------------------------------
+# matrix/cubemeasure.py: _BaseCubeOverlaps.factory
+# ------------------------------------------------------------------------------------
+
+def overlaps_factory(text):
+    """_BaseCubeOverlaps.factory ->
+         (guards: [cube attribute tested `is None` -> raise ValueError],
+          dispatch: Coq term of type cond_dispatch, binds: Coq term of type list (string * fsrc))
+
+       [if cube.<m> is None: raise ValueError(...)]*
+       <dvar> = tuple(d.dimension_type for d in dimensions)
+       <ivar> = cls._slice_idx_expr(cube, slice_idx)
+       <avar> = (a0, a1, ...)                       each cube.<x>[<ivar>] / dimensions / cube.<x>
+       return (A(*<avar>) if <dvar> == (DT.MR, DT.MR) else B(*<avar>))
+    """
+    tr = T._Tr(text, M_CUBEMEASURE)
+    base = "_BaseCubeOverlaps"
+    params = ["cls", "cube", "dimensions", "slice_idx"]
+    body = list(tr._classmethod(base, "factory", params))
+    guards = []
+    while body and isinstance(body[0], ast.If):
+        st = body.pop(0)
+        t = st.test
+        ok = (
+            not st.orelse and len(st.body) == 1 and isinstance(st.body[0], ast.Raise)
+            and isinstance(st.body[0].exc, ast.Call) and T._is_name(st.body[0].exc.func, "ValueError")
+            and isinstance(t, ast.Compare) and len(t.ops) == 1 and isinstance(t.ops[0], ast.Is)
+            and isinstance(t.left, ast.Attribute) and T._is_name(t.left.value, "cube")
+            and isinstance(t.comparators[0], ast.Constant) and t.comparators[0].value is None
+        )
+        if not ok:
+            _un("%s.factory: guard not read" % base, st)
+        guards.append(t.left.attr)
+    if len(body) != 4:
+        _un("%s.factory: expected 4 statements after the guards" % base)
+    s0, s1, s2, s3 = body
+
+    def assign(st):
+        if isinstance(st, ast.Assign) and len(st.targets) == 1 and isinstance(st.targets[0], ast.Name) \
+                and st.targets[0].id not in params + ["np", "DT", "tuple"]:
+            return st.targets[0].id, st.value
+        _un("%s.factory: statement not read" % base, st)
+
+    dvar, v0 = assign(s0)
+    ivar, v1 = assign(s1)
+    avar, v2 = assign(s2)
+    if len({dvar, ivar, avar}) != 3:
+        _un("%s.factory: a local is assigned twice" % base, s2)
+    # tuple(d.dimension_type for d in dimensions)
+    ok = (
+        isinstance(v0, ast.Call) and T._is_name(v0.func, "tuple") and len(v0.args) == 1 and not v0.keywords
+        and isinstance(v0.args[0], ast.GeneratorExp) and len(v0.args[0].generators) == 1
+    )
+    if ok:
+        g = v0.args[0].generators[0]
+        ok = (
+            not g.ifs and not g.is_async and isinstance(g.target, ast.Name)
+            and g.target.id not in params + ["np", "DT", "tuple"]
+            and T._is_name(g.iter, "dimensions")
+            and T._is_attr(v0.args[0].elt, g.target.id, "dimension_type")
+        )
+    if not ok:
+        _un("%s.factory: dimension types not `tuple(d.dimension_type for d in dimensions)`" % base, s0)
+    # cls._slice_idx_expr(cube, slice_idx)
+    ok = (
+        isinstance(v1, ast.Call) and T._is_attr(v1.func, "cls", "_slice_idx_expr") and len(v1.args) == 2
+        and not v1.keywords and T._is_name(v1.args[0], "cube") and T._is_name(v1.args[1], "slice_idx")
+    )
+    if not ok:
+        _un("%s.factory: index expression not cls._slice_idx_expr(cube, slice_idx)" % base, s1)
+    if not (isinstance(v2, ast.Tuple) and not any(isinstance(x, ast.Starred) for x in v2.elts)):
+        _un("%s.factory: constructor arguments not a tuple" % base, s2)
+    # the arguments, with <ivar> put back
+    args = []
+    for a in v2.elts:
+        if isinstance(a, ast.Subscript) and T._is_name(a.slice, ivar):
+            a = ast.Subscript(value=a.value, slice=v1, ctx=ast.Load())
+        for n in ast.walk(a):
+            if isinstance(n, ast.Name) and n.id in (dvar, ivar, avar):
+                _un("%s.factory: constructor argument not read" % base, s2)
+        args.append(a)
+    # return (A(*args) if dvar == (DT.MR, DT.MR) else B(*args))
+    if not (isinstance(s3, ast.Return) and isinstance(s3.value, ast.IfExp)):
+        _un("%s.factory: return statement not read" % base, s3)
+    e = s3.value
+    rules, names = [], []
+
+    def ctor(c):
+        if (
+            isinstance(c, ast.Call) and isinstance(c.func, ast.Name) and not c.keywords and len(c.args) == 1
+            and isinstance(c.args[0], ast.Starred) and T._is_name(c.args[0].value, avar)
+        ):
+            return c.func.id
+        _un("%s.factory: alternative is not Cls(*%s)" % (base, avar), c)
+
+    while isinstance(e, ast.IfExp):
+        nm = ctor(e.body)
+        rules.append("(%s, %s)" % (tr._dcond(e.test, dvar), q(nm)))
+        names.append(nm)
+        e = e.orelse
+    nm = ctor(e)
+    names.append(nm)
+    dispatch = "(%s, %s)" % (T.coq_list(rules), q(nm))
+    tr._same_init(base, names)
+    call = ast.Call(func=ast.Name(id=names[0], ctx=ast.Load()), args=args, keywords=[])
+    binds = tr._binds(base, call, {}, params)
+    return guards, dispatch, binds
+
+
+# ------------------------------------------------------------------------------------
+# measures/pairwise_significance.py: PairwiseSignificance (one column object per displayed column)
+# ------------------------------------------------------------------------------------
+
+def p_lwexp(w):
+    if w[0] == "LWValues":
+        return "LWValues %s" % T.coq_list(w[1])
+    if w[0] == "LWMembers":
+        return "LWMembers %s (%s)" % (q(w[1]), p_lwexp(w[2]))
+    if w[0] == "LWCls":
+        return "LWCls %s (%s)" % (T.coq_list(w[1]), p_lwexp(w[2]))
+    raise AssertionError(w)
+
+
+class _LW(object):
+    CLS = "PairwiseSignificance"
+    COL = "_ColumnPairwiseSignificance"
+
+    def __init__(self, text):
+        self.m = MS._Mod(text, M_LEGACY)
+        imp = self.m.imported()
+        self.problem = None
+        if not self.m.only_imports_and_classes():
+            self.problem = "module-level statements other than imports and classes"
+        for nm, v in (("np", ("numpy", None)), ("lazyproperty", ("cr.cube.util", "lazyproperty"))):
+            if imp.get(nm) != v:
+                self.problem = "the name %s is not imported as expected" % nm
+        for nm in ("range", "tuple"):
+            if nm in imp or nm in self.m.classes:
+                self.problem = "the builtin %s is shadowed" % nm
+        self._fields = None
+
+    def fields(self):
+        """PairwiseSignificance.__init__(self, slice_, alpha=.., only_larger=..): field -> role, by position"""
+        if self.problem:
+            _un(self.problem)
+        if self._fields is not None:
+            return self._fields
+        for c in (self.CLS, self.COL):
+            if c not in self.m.classes or len(self.m.mro(c)) != 1:
+                _un("class %s not found / has base classes" % c)
+        init = self.m.resolve(self.CLS, "__init__")
+        a = init.args if init is not None else None
+        if init is None or a.vararg or a.kwarg or a.kwonlyargs or a.posonlyargs or init.decorator_list:
+            _un("%s.__init__: signature not read" % self.CLS)
+        params = [x.arg for x in a.args][1:]
+        if len(params) != 3:
+            _un("%s.__init__: expected (slice_, alpha, only_larger)" % self.CLS, init)
+        role = dict(zip(params, ("LSlice", "LAlpha", "LOnlyLarger")))
+        out = {}
+        for st in T._strip_doc(init.body):
+            if (
+                isinstance(st, ast.Assign) and len(st.targets) == 1 and isinstance(st.targets[0], ast.Attribute)
+                and T._is_name(st.targets[0].value, "self") and isinstance(st.value, ast.Name)
+                and st.value.id in role and st.targets[0].attr not in out
+            ):
+                out[st.targets[0].attr] = role[st.value.id]
+            else:
+                _un("%s.__init__: statement not read" % self.CLS, st)
+        for mname, fn in self.m.classes[self.CLS].methods.items():
+            if mname == "__init__":
+                continue
+            for n in ast.walk(fn):
+                if isinstance(n, ast.Attribute) and isinstance(n.ctx, (ast.Store, ast.Del)) \
+                        and T._is_name(n.value, "self") and n.attr in out:
+                    _un("%s.%s assigns the field %s" % (self.CLS, mname, n.attr), n)
+        # the column class takes (slice_, col_idx, alpha, only_larger): checked by the caller's arity
+        cinit = self.m.resolve(self.COL, "__init__")
+        if cinit is None or len(cinit.args.args) != 5:
+            _un("%s.__init__: expected (slice_, col_idx, alpha, only_larger)" % self.COL)
+        self._fields = out
+        return out
+
+    def lazy_body(self, mname):
+        fn = self.m.resolve(self.CLS, mname)
+        if fn is None or not MS._plain_lazy(fn):
+            _un("%s.%s is not a plain @lazyproperty" % (self.CLS, mname))
+        return T._strip_doc(fn.body), fn
+
+    def values(self, stack=()):
+        """self.values -> LWValues args"""
+        if "values" in stack:
+            _un("values refers to itself")
+        flds = self.fields()
+        body, fn = self.lazy_body("values")
+        if not (len(body) == 1 and isinstance(body[0], ast.Return) and isinstance(body[0].value, ast.ListComp)):
+            _un("values is not `return [<column object> for col_idx in range(..)]`", fn)
+        lc = body[0].value
+        if len(lc.generators) != 1:
+            _un("comprehension not read", lc)
+        g = lc.generators[0]
+        it = g.iter
+        ok = (
+            not g.ifs and not g.is_async and isinstance(g.target, ast.Name) and g.target.id not in ("self", "np", "range")
+            and isinstance(it, ast.Call) and T._is_name(it.func, "range") and len(it.args) == 1 and not it.keywords
+            and isinstance(it.args[0], ast.Subscript) and T._nat(it.args[0].slice) == 1
+            and isinstance(it.args[0].value, ast.Attribute) and it.args[0].value.attr == "shape"
+            and isinstance(it.args[0].value.value, ast.Attribute) and T._is_name(it.args[0].value.value.value, "self")
+            and flds.get(it.args[0].value.value.attr) == "LSlice"
+        )
+        if not ok:
+            _un("comprehension is not `for col_idx in range(self.<slice>.shape[1])`", lc)
+        c = lc.elt
+        if not (isinstance(c, ast.Call) and T._is_name(c.func, self.COL) and not c.keywords and len(c.args) == 4
+                and not any(isinstance(a, ast.Starred) for a in c.args)):
+            _un("element is not %s(slice, col_idx, alpha, only_larger)" % self.COL, c)
+        args = []
+        for a in c.args:
+            if T._is_name(a, g.target.id):
+                args.append("LCol")
+            elif isinstance(a, ast.Attribute) and T._is_name(a.value, "self") and a.attr in flds:
+                args.append(flds[a.attr])
+            else:
+                _un("constructor argument not read", a)
+        return ("LWValues", args)
+
+    def over_values(self, e, kind):
+        """(sig.<m> for sig in self.values) as GeneratorExp (kind 'gen') / ListComp (kind 'list')"""
+        want = ast.GeneratorExp if kind == "gen" else ast.ListComp
+        if not (isinstance(e, want) and len(e.generators) == 1):
+            return None
+        g = e.generators[0]
+        if g.ifs or g.is_async or not isinstance(g.target, ast.Name) or g.target.id in ("self", "np"):
+            return None
+        if not T._is_attr(g.iter, "self", "values"):
+            return None
+        if not (isinstance(e.elt, ast.Attribute) and T._is_name(e.elt.value, g.target.id)):
+            return None
+        return ("LWMembers", e.elt.attr, self.values())
+
+    def member(self, mname):
+        self.fields()
+        body, fn = self.lazy_body(mname)
+        # return tuple(sig.<m> for sig in self.values)
+        if len(body) == 1 and isinstance(body[0], ast.Return) and isinstance(body[0].value, ast.Call):
+            c = body[0].value
+            if T._is_name(c.func, "tuple") and len(c.args) == 1 and not c.keywords:
+                r = self.over_values(c.args[0], "gen")
+                if r is not None:
+                    return r
+        # X = np.empty(self.values[0].t_stats.shape[1], dtype=object); X[:] = [sig.<m> for sig in self.values]; return X
+        if len(body) == 3:
+            s0, s1, s2 = body
+            ok = (
+                isinstance(s0, ast.Assign) and len(s0.targets) == 1 and isinstance(s0.targets[0], ast.Name)
+                and isinstance(s0.value, ast.Call) and T._is_attr(s0.value.func, "np", "empty")
+                and len(s0.value.args) == 1 and [k.arg for k in s0.value.keywords] == ["dtype"]
+                and T._is_name(s0.value.keywords[0].value, "object")
+            )
+            if ok:
+                x = s0.targets[0].id
+                n = s0.value.args[0]
+                # self.values[0].t_stats.shape[1]: the number of columns of the slice
+                ok = (
+                    isinstance(n, ast.Subscript) and T._nat(n.slice) == 1 and isinstance(n.value, ast.Attribute)
+                    and n.value.attr == "shape" and isinstance(n.value.value, ast.Attribute)
+                    and n.value.value.attr == "t_stats" and isinstance(n.value.value.value, ast.Subscript)
+                    and T._nat(n.value.value.value.slice) == 0
+                    and T._is_attr(n.value.value.value.value, "self", "values")
+                    and isinstance(s1, ast.Assign) and len(s1.targets) == 1
+                    and isinstance(s1.targets[0], ast.Subscript) and T._is_name(s1.targets[0].value, x)
+                    and _full_slice(s1.targets[0].slice)
+                    and isinstance(s2, ast.Return) and T._is_name(s2.value, x) and x not in ("self", "np")
+                )
+                if ok:
+                    r = self.over_values(s1.value, "list")
+                    if r is not None:
+                        return r
+        _un("%s.%s: body outside the sub-language" % (self.CLS, mname), fn)
+
+    def classmethod_member(self, mname):
+        """cls(slice_, alpha, only_larger).<lazyproperty>"""
+        self.fields()
+        fn = self.m.resolve(self.CLS, mname)
+        if fn is None or not (len(fn.decorator_list) == 1 and T._is_name(fn.decorator_list[0], "classmethod")):
+            _un("%s.%s is not a @classmethod" % (self.CLS, mname))
+        a = fn.args
+        params = [x.arg for x in a.args]
+        if len(params) != 4 or a.vararg or a.kwarg or a.kwonlyargs or a.defaults or a.posonlyargs:
+            _un("%s.%s: signature not read" % (self.CLS, mname), fn)
+        role = dict(zip(params[1:], ("LSlice", "LAlpha", "LOnlyLarger")))
+        body = T._strip_doc(fn.body)
+        if not (len(body) == 1 and isinstance(body[0], ast.Return) and isinstance(body[0].value, ast.Attribute)):
+            _un("%s.%s is not `return cls(..).<member>`" % (self.CLS, mname), fn)
+        e = body[0].value
+        c = e.value
+        if not (isinstance(c, ast.Call) and T._is_name(c.func, params[0]) and not c.keywords
+                and all(isinstance(x, ast.Name) and x.id in role for x in c.args)):
+            _un("%s.%s: constructor call not read" % (self.CLS, mname), fn)
+        return ("LWCls", [role[x.id] for x in c.args], self.member(e.attr))
+
+
+# ------------------------------------------------------------------------------------
 # emission
 # ------------------------------------------------------------------------------------
 
@@ -1184,7 +1724,7 @@ HEADER = """(* GENERATED by harness/translate/x_pairwise.py from %s
    (Base/PairExp.v gives the meaning); [None] = the translator could not read the member (it is
    then tied to the model by the correspondence check only). *)
 From Coq Require Import List String QArith ZArith.
-From CC Require Import Base.MeasureExp Base.PairExp Base.PairCtlExp.
+From CC Require Import Base.Tensor Base.MeasureExp Base.PairExp Base.PairCtlExp.
 Import ListNotations.
 Local Close Scope Q_scope.
 Local Open Scope string_scope.
@@ -1197,10 +1737,17 @@ WIRED_TARGETS = (
     ("pairwise_p_vals", "PairwiseSigPvals", ("blocks",)),
     ("pairwise_significance_means_t_stats", "PairwiseMeansSigTStats", ("t_stats", "blocks")),
     ("pairwise_significance_means_p_vals", "PairwiseMeansSigPVals", ("p_vals", "_df", "blocks")),
-    ("pairwise_t_stats_for_subvar", "PairwiseSigTStatsForSubvar", ("t_stats",)),
-    ("pairwise_p_vals_for_subvar", "PairwiseSigPValsForSubvar", ("p_vals",)),
+    ("pairwise_t_stats_for_subvar", "PairwiseSigTStatsForSubvar", ("t_stats", "_hs_t_stats")),
+    ("pairwise_p_vals_for_subvar", "PairwiseSigPValsForSubvar", ("p_vals", "_hs_p_vals")),
 )
 BLOCK_MEMBERS = ("blocks", "_column_bases")
+LEGACY_MEMBERS = (
+    ("t_stats", "pexp"),
+    ("summary_t_stats", "pexp"), ("_df", "pexp"), ("summary_p_vals", "pexp"),
+    ("summary_pairwise_indices", "bvexp"),
+    ("t_stats_scale_means", "pexp"), ("_two_sample_df", "pexp"), ("p_vals_scale_means", "pexp"),
+    ("scale_mean_pairwise_indices", "bvexp"),
+)
 HELPER_MEMBERS = ("t_stats", "p_vals", "_df")
 
 
@@ -1274,6 +1821,21 @@ def _gen(texts, report):
                 m in BLOCK_MEMBERS,
             )
         L.append("")
+    # residual p-values (C12): SecondOrderMeasures.pvalues, a lazyproperty
+    L.append("(** * SecondOrderMeasures.pvalues *)")
+    if tr is None:
+        unavailable_all("Pvalues", ("blocks",), "module not read: %r" % (tr_err,))
+    else:
+        try:
+            cname, fields = tr.wiring("pvalues")
+            L.append("(* constructs %s *)" % cname)
+            _emit_member(
+                tr, L, report, modname, "src_Pvalues_blocks", "%s.blocks" % cname,
+                (lambda cname=cname, fields=fields: tr.member(cname, fields, "blocks")), True,
+            )
+        except Unavailable as ex:
+            unavailable_all("Pvalues", ("blocks",), str(ex))
+    L.append("")
     L.append("(** * %s(column_proportions, selected_bases, valid_bases, row_idx, idx_a, idx_b) *)" % HELPER)
     if tr is None:
         unavailable_all("OverlapHelper", HELPER_MEMBERS, "module not read: %r" % (tr_err,))
@@ -1289,23 +1851,91 @@ def _gen(texts, report):
             unavailable_all("OverlapHelper", HELPER_MEMBERS, str(ex))
     L.append("")
     # ---- measures/pairwise_significance.py
-    L.append("(** * measures/pairwise_significance.py: _ColumnPairwiseSignificance(slice_, col_idx, ..) *)")
+    L.append("(** * measures/pairwise_significance.py: _ColumnPairwiseSignificance(slice_, col_idx, alpha, only_larger) *)")
     modname = "pairwise-legacy"
+    LEG = "_ColumnPairwiseSignificance"
+    lt, fields, lerr = None, None, None
     try:
         lt = _PW(texts[M_LEGACY], "", legacy=True)
-        fields = lt.legacy_fields("_ColumnPairwiseSignificance")
-        _emit_member(
-            lt, L, report, modname, "src_Legacy_t_stats", "_ColumnPairwiseSignificance.t_stats",
-            (lambda: lt.member("_ColumnPairwiseSignificance", fields, "t_stats")), False,
-        )
+        fields = lt.legacy_fields(LEG)
     except Unavailable as ex:
-        report["unavailable"].append({"method": "%s:_ColumnPairwiseSignificance.t_stats" % modname, "reason": str(ex)})
-        L.append("(* _ColumnPairwiseSignificance.t_stats not read: %s *)" % T._coq_comment(str(ex)))
-        L.append("Definition src_Legacy_t_stats : option pexp := None.")
+        lerr = str(ex)
     except Exception as ex:
-        report["unavailable"].append({"method": "%s:_ColumnPairwiseSignificance.t_stats" % modname, "reason": repr(ex)})
-        L.append("(* _ColumnPairwiseSignificance.t_stats not read: %s *)" % T._coq_comment(repr(ex)))
-        L.append("Definition src_Legacy_t_stats : option pexp := None.")
+        lerr = repr(ex)
+    for m, ty in LEGACY_MEMBERS:
+        ident = "src_Legacy_%s" % m
+        what = "%s.%s" % (LEG, m)
+        term = "None"
+        try:
+            if lerr is not None:
+                raise Unavailable(lerr)
+            v = lt.member(LEG, fields, m)
+            if ty == "bvexp":
+                if v[0] != "where1":
+                    _un("the member is not tuple(np.where(<boolean vector>)[0])")
+                term = "Some (%s)" % p_bvexp(v[1])
+            else:
+                term = "Some (%s)" % p_pexp(lt.arr(v, None))
+            report["methods_translated"].append("%s:%s" % (modname, what))
+        except Unavailable as ex:
+            report["unavailable"].append({"method": "%s:%s" % (modname, what), "reason": str(ex)})
+            L.append("(* %s not read: %s *)" % (what, T._coq_comment(str(ex))))
+        except Exception as ex:
+            report["unavailable"].append({"method": "%s:%s" % (modname, what), "reason": repr(ex)})
+            L.append("(* %s not read: %s *)" % (what, T._coq_comment(repr(ex))))
+        L.append("Definition %s : option %s := %s." % (ident, ty, term))
+    L.append("")
+    # ---- PairwiseSignificance: one column object per displayed column
+    L.append("(** * measures/pairwise_significance.py: PairwiseSignificance(slice_, alpha, only_larger) *)")
+    lw, lw_err = None, None
+    try:
+        lw = _LW(texts[M_LEGACY])
+    except Exception as ex:
+        lw_err = ex
+    LWT = (
+        ("src_PairwiseSignificance__scale_mean_pairwise_indices", "PairwiseSignificance._scale_mean_pairwise_indices",
+         lambda: lw.member("_scale_mean_pairwise_indices")),
+        ("src_PairwiseSignificance_summary_pairwise_indices", "PairwiseSignificance.summary_pairwise_indices",
+         lambda: lw.member("summary_pairwise_indices")),
+        ("src_PairwiseSignificance_scale_mean_pairwise_indices", "PairwiseSignificance.scale_mean_pairwise_indices",
+         lambda: lw.classmethod_member("scale_mean_pairwise_indices")),
+    )
+    for ident, what, thunk in LWT:
+        try:
+            if lw is None:
+                raise Unavailable("module not read: %r" % (lw_err,))
+            term = "Some (%s)" % p_lwexp(thunk())
+            report["methods_translated"].append("%s:%s" % (modname, what))
+        except Unavailable as ex:
+            term = "None"
+            report["unavailable"].append({"method": "%s:%s" % (modname, what), "reason": str(ex)})
+            L.append("(* %s not read: %s *)" % (what, T._coq_comment(str(ex))))
+        except Exception as ex:
+            term = "None"
+            report["unavailable"].append({"method": "%s:%s" % (modname, what), "reason": repr(ex)})
+            L.append("(* %s not read: %s *)" % (what, T._coq_comment(repr(ex))))
+        L.append("Definition %s : option lwexp := %s." % (ident, term))
+    L.append("")
+    # ---- matrix/cubemeasure.py: the overlaps factory
+    L.append("(** * matrix/cubemeasure.py: _BaseCubeOverlaps.factory *)")
+    modname = "pairwise-cubemeasure"
+    what = "_BaseCubeOverlaps.factory"
+    fac = None
+    try:
+        fac = overlaps_factory(texts[M_CUBEMEASURE])
+        report["methods_translated"].append("%s:%s" % (modname, what))
+    except Unavailable as ex:
+        report["unavailable"].append({"method": "%s:%s" % (modname, what), "reason": str(ex)})
+        L.append("(* %s not read: %s *)" % (what, T._coq_comment(str(ex))))
+    except Exception as ex:
+        report["unavailable"].append({"method": "%s:%s" % (modname, what), "reason": repr(ex)})
+        L.append("(* %s not read: %s *)" % (what, T._coq_comment(repr(ex))))
+    L.append("Definition src_CubeOverlaps_guards : option (list string) := %s."
+             % ("None" if fac is None else "Some (%s)" % T.coq_list([q(g) for g in fac[0]])))
+    L.append("Definition src_CubeOverlaps_dispatch : option (cond_dispatch) := %s."
+             % ("None" if fac is None else "Some (%s)" % fac[1]))
+    L.append("Definition src_CubeOverlaps_binds : option (list (string * fsrc)) := %s."
+             % ("None" if fac is None else "Some (%s)" % fac[2]))
     L.append("")
     # ---- cubepart.py
     L.append("(** * cubepart._Slice._pairwise_indices(p_vals, t_stats, alpha, only_larger, col_idx) *)")
@@ -1386,7 +2016,7 @@ def regenerate(repo_src, gen_dir, report):
     """Adds Gen/PairwiseSrc.v; extends `report`."""
     report["x_pairwise_version"] = VERSION
     texts = {}
-    for rel in (M_MATRIX, M_SUBTOTALS, M_LEGACY, M_CUBEPART):
+    for rel in (M_MATRIX, M_SUBTOTALS, M_LEGACY, M_CUBEPART, M_CUBEMEASURE):
         p = os.path.join(repo_src, rel)
         try:
             with open(p, encoding="utf-8") as f:
